@@ -31,6 +31,9 @@ pub struct FakeState {
     pub log: Vec<(String, Vec<u8>)>,
     pub unexpected: Vec<String>,
     pub connections: usize,
+    /// fault kind `X`: from that query on the server answers everything with a line that is not an
+    /// IRRd response at all (a rate limiter's banner)
+    pub bad: bool,
 }
 
 impl FakeState {
@@ -38,6 +41,7 @@ impl FakeState {
     pub fn begin(&mut self, faults: Vec<(Sel, char)>) {
         self.faults = faults;
         self.rel = 0;
+        self.bad = false;
     }
     fn answer(&mut self, line: &str) -> Vec<u8> {
         let i = self.rel;
@@ -46,6 +50,14 @@ impl FakeState {
             Sel::Idx(j) => *j == i,
             Sel::Query(q) => q == line,
         });
+        if matches!(fault, Some((_, 'X'))) {
+            self.bad = true;
+        }
+        if self.bad {
+            let resp = b"%ERROR:201: access denied\n".to_vec();
+            self.log.push((line.to_string(), resp.clone()));
+            return resp;
+        }
         let resp = match fault {
             Some((_, 'D')) => b"D\n".to_vec(),
             Some((_, 'E')) => b"E\n".to_vec(),
